@@ -27,7 +27,8 @@ TEXT_CLASSES = ["str", "ustr", "url", "regexp", "tok"]
 LIST_CLASSES = ["array", "linked_list", "dlinked_list"]
 
 
-def cmp_tables(ctx):
+def cmp_tables(ctx, probes_only=False):
+    """probes_only: just the dup-capacity probes of str / ustr / mbuff (used by the C06 check)."""
     libdir, cflags = build.build_lib(ctx.repo)
     exe = build.build_harness("cmp_table", ["cmp_table.c"], libdir, cflags)
     cfg = "Cmp_quick.cfg" if ctx.tier == "quick" else "Cmp_thorough.cfg"
@@ -58,6 +59,8 @@ def cmp_tables(ctx):
     plan.append(("objpair", "pair", [o for o in pair if no0(o)]))
     for c in LIST_CLASSES:
         plan.append((c, "laws", [o for o in text if o["null"] or not o["v"] or o["v"][-1] != 0]))
+    if probes_only:
+        plan = [(c, k, o[:2]) for c, k, o in plan if c in ("str", "ustr", "mbuff")]
     for c, kind, objs in plan:
         lines.append("class %s %s" % (c, kind))
         objs = objs[:(250 if ctx.tier == "quick" else 330)]
@@ -82,13 +85,14 @@ def cmp_tables(ctx):
     tables = [t for t in lines_out if "cls" in t]
     probes = [t for t in lines_out if "dupprobe" in t]
     ctx.add("dup_capacity_probes", len(probes))
-    if len(probes) != 24:
-        raise Broken("dup probes: %d of 24 ran" % len(probes))
+    if len(probes) != 48:
+        raise Broken("dup probes: %d of 48 ran" % len(probes))
     for pr in probes:
         if pr["verdict"] != "ok":
             cls_ = "slack>=4096" if pr["slack"] >= 4096 else ("slack>0" if pr["slack"] else "exact")
-            ctx.report("dup %s [%s] %s" % (pr["dupprobe"], cls_, pr["verdict"]),
-                       "%s: dup of a value held with %d bytes of spare capacity: %s" % (pr["dupprobe"], pr["slack"], pr["verdict"]), pr)
+            ctx.report("dup %s [%s,%s] %s" % (pr["dupprobe"], pr.get("content", "text"), cls_, pr["verdict"]),
+                       "%s: dup of %s value held with %d bytes of spare capacity: %s" % (
+                           pr["dupprobe"], "an EMPTY" if pr.get("content") == "empty" else "a", pr["slack"], pr["verdict"]), pr)
     if len(tables) != len(plan):
         raise Broken("cmp_table produced %d tables for %d classes; stderr: %s" % (len(tables), len(plan), r.stderr.decode("latin-1")[-1500:]))
     tr = os.path.join(ctx.rundir, "cmp-tables.ndjson")
@@ -179,10 +183,10 @@ SMALL = ["objpair", "tok", "url", "regexp"]
 SMALL_INIT = {"a": {"live": False, "p": 0, "q": 0, "r": 0}, "b": {"live": False, "p": 0, "q": 0, "r": 0}}
 # actions of SmallObj that do not apply to a class (never enabled there): not a vacuity
 SMALL_NA = {
-    "objpair": ["OpStrTrim", "OpBStrTrim", "OpStrRound", "OpNewFromPtr", "OpSetFlags", "OpEval", "OpMatches", "OpBSetFlags", "OpBEval"],
-    "tok": ["OpStrTrim", "OpBStrTrim", "OpStrRound", "OpNewFromKey", "OpNewFromValue", "OpNewFromBoth", "OpSetFlags", "OpMatches", "OpBSetFlags"],
-    "url": ["OpNew", "OpNewFromKey", "OpNewFromValue", "OpNewFromBoth", "OpSetP", "OpSetFlags", "OpEval", "OpMatches", "OpBSetFlags", "OpBEval"],
-    "regexp": ["OpNewFromKey", "OpNewFromValue", "OpNewFromBoth", "OpSetP", "OpSetQ", "OpEval", "OpBSetQ", "OpBEval", "OpClearQ", "OpBClearQ"],
+    "objpair": ["OpStrCut", "OpBStrCut", "OpNewEmpty", "OpStrTrim", "OpBStrTrim", "OpStrRound", "OpNewFromPtr", "OpSetFlags", "OpEval", "OpMatches", "OpBSetFlags", "OpBEval"],
+    "tok": ["OpStrCut", "OpBStrCut", "OpNewEmpty", "OpStrTrim", "OpBStrTrim", "OpStrRound", "OpNewFromKey", "OpNewFromValue", "OpNewFromBoth", "OpSetFlags", "OpMatches", "OpBSetFlags"],
+    "url": ["OpClearP", "OpBClearP", "OpNew", "OpNewFromKey", "OpNewFromValue", "OpNewFromBoth", "OpSetP", "OpSetFlags", "OpEval", "OpMatches", "OpBSetFlags", "OpBEval"],
+    "regexp": ["OpClearP", "OpBClearP", "OpNewFromKey", "OpNewFromValue", "OpNewFromBoth", "OpSetP", "OpSetQ", "OpEval", "OpBSetQ", "OpBEval", "OpClearQ", "OpBClearQ"],
 }
 
 
